@@ -39,11 +39,11 @@ PROPS = {
               'newer terms / accepted append_entries lead to FOLLOWER.',
               ['the global counting argument (one leader per term follows from these local rules plus FIFO links)', 'vote duplication across restarts (C07)'],
               'path-sensitive must-fact guard entailment, small-domain evaluation of extracted majority arithmetic'),
-    'C04': _p(['R-commit-rule', 'R-match-writes', 'R-ack-after-store', 'R-truncate-on-conflict', 'R-commit-gate', 'R-leader-append-position', 'R-sender-prev-adjacent', 'R-majority'],
+    'C04': _p(['R-commit-rule', 'R-match-writes', 'R-ack-after-store', 'R-truncate-on-conflict', 'R-commit-gate', 'R-leader-append-position', 'R-sender-prev-adjacent', 'R-applied-monotone', 'R-majority'],
               'leader commits only an index stored on a strict majority of voters whose entry has the current term; matchIndex only raised for a successful reply, '
               'upwards, to the acknowledged index; positive acknowledgement only after gate + store (or completed install) with a recognised index; truncation only on '
               'conflict; follower commit only on verified paths, monotone and bounded by the leader commit.',
-              ['Log Matching as a global invariant', 'monotonicity of lastApplied across snapshot installs'],
+              ['Log Matching as a global invariant'],
               'must-facts with alias/congruence closure, CFG dominance, small-domain arithmetic'),
     'C05': _p(['R-timer-reset', 'R-heartbeat', 'R-vote-refusal-justified', 'R-sender-total', 'R-chunk-length', 'R-reply-exhaustive', 'R-disposition'],
               'progress obligations only: election deadline re-armed by accepted append_entries / grant / candidacy and candidacy guarded by the deadline; every '
